@@ -27,6 +27,8 @@ ENV_ASSUMPTIONS = [
     "A5 raw/smart queries return the remote contract's current state",
     "A6 IBC: packet endpoints are the channel's true endpoints; one ack or timeout per sent packet; entry points not re-entrant",
     "A7 serialization of stored/sent values is total and injective; uninterpreted otherwise",
+    "A8 success direction of dependencies (used only by the 'goes through / is never refused' clauses): Api::addr_validate accepts exactly a fixed set of strings; a smart query succeeds exactly when the remote contract answers and the answer decodes; a raw query of an existing contract fails only on an unparsable value; Item/Map load, may_load, update and cw-controllers Claims::claim_tokens fail only on an unparsable stored value or through the caller's own closure; to_json_binary never fails",
+    "panic = abort: an operation that panics (overflow with [profile.release] overflow-checks = true, division by zero, Uint128 +,-,*) commits nothing; contracts of non-strict units are partial-correctness statements about the non-panicking runs, except for functions marked [no_panic]",
     "derived Clone/PartialEq/Default have their standard structural semantics (E1)",
     "rustc, Verus 0.2026.09.13 and Z3 are sound; machine integers are modelled exactly by Verus (no mathematical-integer idealisation in exec code)",
 ]
